@@ -566,6 +566,7 @@ func c19Reconstruct(po *c19PipeObs, params e2eParams, ambQueued int, stopSeq int
 			if len(rc.left) > 0 {
 				rc.fail("consumer finished with %d leftovers not handed back", len(rc.left))
 			}
+			rc.emit(51) // run() returns: onFinished
 			rc.drainWindow()
 			rc.emit(25)
 			rc.phase = cpStopped
